@@ -136,7 +136,11 @@ class PixCoord:
         if isinstance(other, self.__class__):
             if np.shape(self.x) != np.shape(other.x):
                 return False
-            return np.allclose([self.x, self.y], [other.x, other.y])
+            # np.allclose is relative to its second argument only;
+            # test both ways round so that equality is symmetric
+            return bool(np.allclose([self.x, self.y], [other.x, other.y])
+                        and np.allclose([other.x, other.y],
+                                        [self.x, self.y]))
         return False
 
     def to_sky(self, wcs, origin=_DEFAULT_WCS_ORIGIN, mode=_DEFAULT_WCS_MODE):
